@@ -2,7 +2,7 @@
     Only statements, each closed by [exact] of a general theorem instantiated with the constants
     regenerated from /repo (Gen.Gen_Config), plus non-vacuity examples. *)
 From Coq Require Import Strings.String.
-From Snoopy Require Import Lib.CStr Config.Model Config.Grammar Config.Exec Config.Values Config.Handler.
+From Snoopy Require Import Lib.CStr Config.Model Config.Grammar Config.Exec Config.Values Config.Handler Config.IniLemmas Config.IniLines Config.RoundTrip.
 From Gen Require Import Gen_Config.
 Local Open Scope N_scope.
 Notation C := Gen_Config.consts.
@@ -70,6 +70,34 @@ Theorem C08_ignored_handler : forall g sec name v,
   sec <> SNOOPY \/ (forall o, registered C o -> name <> doc_name o) -> handler C g (sec, name, v) = g.
 Proof. exact (handler_ignored C gen_ok). Qed.
 
+(** comment lines and error lines make no handler call, whatever their text (with the two theorems above: C08_ignored) *)
+Theorem C08_ignored_comment_line : forall st ln bom w m t e, inline_ws w = true -> memb m (ini_start_comment C) = true ->
+  ini_body C st ln bom (w ++ [m] ++ t ++ render_eol e) = (same_state st ln, []).
+Proof. exact (comment_line_no_event C gen_ok). Qed.
+Theorem C08_ignored_error_line : forall st ln bom l1,
+  (forall b, In b (lskip (rstrip l1)) -> b <> EQB /\ b <> COLONB) ->
+  (nonempty (st_prev st) && (bom || negb (Nat.eqb (length (lskip (rstrip l1))) (length (rstrip l1))))) = false ->
+  snd (ini_body C st ln bom l1) = [].
+Proof. exact (error_line_no_event C). Qed.
+
+(** per-line lemmas of ini_parse_stream *)
+Theorem C08_section_line : forall st ln bom w n t e,
+  inline_ws w = true -> negb (memb RBR n) = true -> no_inline C n = true -> (nonempty (st_prev st) && (bom || nonempty w)) = false ->
+  ini_body C st ln bom (w ++ [LBR] ++ n ++ [RBR] ++ t ++ render_eol e) =
+  ({| st_section := takeN (ini_max_section C - 1) n; st_prev := []; st_error := st_error st; st_lineno := ln |}, []).
+Proof. exact (section_line C gen_ok). Qed.
+Theorem C08_kv_line_event : forall st ln bom w1 k w2 sep w3 q v w4 cm e,
+  wf_item C (nonempty (st_prev st)) (IKeyValue w1 k w2 sep w3 q v w4 cm) = true -> (bom = true -> st_prev st = []) ->
+  ini_body C st ln bom (w1 ++ k ++ w2 ++ [sep] ++ w3 ++ quote q v ++ kv_tail w4 cm e) =
+  ({| st_section := st_section st; st_prev := takeN (ini_max_name C - 1) k; st_error := st_error st; st_lineno := ln |}, [(st_section st, k, v)]).
+Proof. exact (kv_line_event C gen_ok). Qed.
+
+(** decode after encode: for EVERY abstract file of the supported grammar (sections, '='/':' separators, ';'/'#' comments, inline
+    comments, double/single quotes, BOM, continuation lines, duplicate keys, arbitrary inline whitespace, LF / CR-LF / missing final
+    newline; physical lines fitting the fgets buffer), ini_parse makes exactly the handler calls of its meaning and returns 0 *)
+Theorem C08_grammar_roundtrip : forall f : ini_file, wf C f = true -> ini_events C (render f) = (meaning C f, 0).
+Proof. exact (grammar_roundtrip C gen_ok). Qed.
+
 Print Assumptions C08_bool_first_letter.
 Print Assumptions C08_syslog_names.
 Print Assumptions C08_output_split.
@@ -79,6 +107,11 @@ Print Assumptions C08_len_zero_default.
 Print Assumptions C08_last_wins.
 Print Assumptions C08_model_meets_spec.
 Print Assumptions C08_ignored_handler.
+Print Assumptions C08_ignored_comment_line.
+Print Assumptions C08_ignored_error_line.
+Print Assumptions C08_section_line.
+Print Assumptions C08_kv_line_event.
+Print Assumptions C08_grammar_roundtrip.
 
 (** non-vacuity *)
 Example C08_bool_nonvacuous : parse_bool C (bytes "Yes please") = Some true /\ parse_bool C (bytes "0") = Some false /\ parse_bool C (bytes "maybe") = None.
@@ -103,3 +136,34 @@ Example C08_last_wins_nonvacuous :
   /\ shown_of C (fold_left (handler C) evs (defaults C)) =
      map (fun r => (row_name r, match row_parse r with OOutput => bytes "stderr" | OLevel => bytes "ERR" | OErrorLogging => bytes "yes" | o => default_show C o end)) (options C).
 Proof. split; [|split]; [vm_compute; tauto | right; intros e He; vm_compute in He; repeat (destruct He as [<-|He]; [vm_compute; reflexivity|]); contradiction | vm_compute; reflexivity]. Qed.
+
+Definition example_file : ini_file :=
+  {| f_bom := true;
+     f_items := [(IComment [] SEMI (bytes " snoopy configuration"), ECRLF);
+                 (ISection [] (bytes "snoopy") (bytes " ; main section"), ELF);
+                 (IKeyValue [] (bytes "message_format") [SP] EQB [SP] QDouble (bytes " %{cmdline} ") [TAB] (Some (bytes " keep outer blanks")), ELF);
+                 (ICont [TAB] (bytes "uid=%{uid} ;not a comment here"), ELF);
+                 (IBlank [SP], ELF);
+                 (IKeyValue [] (bytes "output") [] COLONB [] QNone (bytes "file:/var/log/a:b") [] None, ENONE)] |}.
+Example C08_grammar_nonvacuous :
+  wf C example_file = true
+  /\ ini_events C (render example_file) =
+     ([(SNOOPY, bytes "message_format", bytes " %{cmdline} "); (SNOOPY, bytes "message_format", bytes "uid=%{uid} ;not a comment here");
+       (SNOOPY, bytes "output", bytes "file:/var/log/a:b")], 0).
+Proof. split; vm_compute; reflexivity. Qed.
+Example C08_ignored_nonvacuous :
+  fst (ini_events C (bytes "; comment = 1
+[other]
+output = stdout
+[snoopy]
+no separator here
+unknown_key = 5
+")) = [(bytes "other", bytes "output", bytes "stdout"); (SNOOPY, bytes "unknown_key", bytes "5")]
+  /\ load C (defaults C) (bytes "; comment = 1
+[other]
+output = stdout
+[snoopy]
+no separator here
+unknown_key = 5
+") = defaults C.
+Proof. split; vm_compute; reflexivity. Qed.
